@@ -299,8 +299,24 @@ class Roles:
 
     @property
     def fd_phi(self):
-        return self._get("fd_phi", lambda: A.method(
-            self.fx, "fd_phi", FD, ["&mut " + FD, "&types::ChitchatId"], "std::option::Option<f64>"))
+        def find():
+            try:
+                return A.method(self.fx, "fd_phi", FD, ["&mut " + FD, "&types::ChitchatId"], "std::option::Option<f64>")
+            except A.AnchorLost:
+                # the per-member phi lookup in another shape (`&self`, a free function over the sample map, ...): the unique
+                # function of the module that takes the member id last, returns Option<f64> and asks a window for its phi
+                from .core import callgraph
+                cg = callgraph.CallGraph(self.fx)
+                sw = self.sw_phi["id"]
+                c = [f for f in self.fx.fns.values() if f["kind"] in ("fn", "method") and f.get("output") == "std::option::Option<f64>"
+                     and (f.get("inputs") or [""])[-1] == "&types::ChitchatId" and len(f["inputs"]) == 2
+                     and f["id"].startswith("failure_detector::") and sw in cg.edges.get(f["id"], ())]
+                if len(c) != 1:
+                    raise
+                d = dict(c[0])
+                d["reshaped"] = True
+                return d
+        return self._get("fd_phi", find)
 
     @property
     def sw_report_heartbeat(self):
